@@ -14,7 +14,7 @@ def run(ctx):
                              out_name="hist.ndjson", timeout=1800)
     out = ctx.sub("traces")
     traces, ncases = h1common.run_h1srv(ctx, drv, cases, out, modes="buffered" if ctx.quick else "buffered,streaming",
-                                        cuts="whole" if ctx.quick else "whole,rand1x4", extra=["-trace", "detailed,base"])
+                                        cuts="whole" if ctx.quick else "whole,rand1x4", extra=["-trace", "detailed,base,disabled"])
     res = lib.validate(ctx, "H1ServerTrace", "H1ServerTrace.cfg", traces, timeout=1800)
     lib.handle_rejections(ctx, res, lambda cl: rerun(ctx, cl), rerun_hist=lambda seq: h1common.rerun_h1srv_hist(ctx, seq))
 
